@@ -113,6 +113,9 @@ func genRequestScenario(prop string, rng *rand.Rand, o requestOpts) *sim.Scenari
 		lis := sim.Listener{Addr: c.Target, Port: lisPort, Permitted: true, Timestamps: chance(rng, 0.5), ISN: rng.Uint32(), ServerSeq: rng.Uint32()}
 		// a SYN-ACK that takes a while: every run of the request has its capture handle open by then and
 		// sees the SYN-ACKs of all of them
+		if chance(rng, 0.15) {
+			lis.SynAckDupUs = int64(pick(rng, 300, 5000, 30000, 120000))
+		}
 		lis.SynAckDelayUs = int64(pick(rng, 0, between(rng, 1, 3000), between(rng, 1, 3000), between(rng, 1000, 60000)))
 		sc.Listeners = append(sc.Listeners, lis)
 		c.Listener = 1
